@@ -49,11 +49,16 @@ class watchdog:
     def __init__(self, seconds=2.0):
         self.seconds = seconds
 
+    # the budget is CPU time of this process (ITIMER_PROF), so a loaded machine cannot turn a slow execution into a "hang";
+    # a wall-clock timer 20x longer is the backstop for an execution that blocks without using the CPU
     def __enter__(self):
         signal.signal(signal.SIGALRM, _alarm)
-        signal.setitimer(signal.ITIMER_REAL, self.seconds)
+        signal.signal(signal.SIGPROF, _alarm)
+        signal.setitimer(signal.ITIMER_PROF, self.seconds)
+        signal.setitimer(signal.ITIMER_REAL, self.seconds * 20)
 
     def __exit__(self, *a):
+        signal.setitimer(signal.ITIMER_PROF, 0)
         signal.setitimer(signal.ITIMER_REAL, 0)
         return False
 
